@@ -2,17 +2,18 @@ package simrt
 
 import (
 	"fmt"
+	"os"
 	"sync"
 	"sync/atomic"
 )
 
 // Schedule strategies.
 const (
-	StratUniform   = 0 // uniform choice among enabled tasks at every decision
-	StratSticky    = 1 // keep running the current task, switch with probability 1/SwitchDen
-	StratPCT       = 2 // random priorities, ChangePoints priority drops at random decisions
-	StratPreemptK  = 3 // run until blocked, ChangePoints forced preemptions at random decisions
-	NumStrategies  = 4
+	StratUniform  = 0 // uniform choice among enabled tasks at every decision
+	StratSticky   = 1 // keep running the current task, switch with probability 1/SwitchDen
+	StratPCT      = 2 // random priorities, ChangePoints priority drops at random decisions
+	StratPreemptK = 3 // run until blocked, ChangePoints forced preemptions at random decisions
+	NumStrategies = 4
 )
 
 // Config describes one simulated concurrent run. Everything random is derived from Seed.
@@ -30,17 +31,17 @@ type Config struct {
 
 // Report is what a run leaves behind.
 type Report struct {
-	Yields, Decisions, Switches          uint64
-	BlockedOnLock, BlockedOnOnce         uint64
-	TraceHash, SwitchHash                uint64
-	Deadlock                             string
-	Log                                  []uint8  // one entry per decision: index into the enabled list (current task first, then by id)
-	PoolLog                              []uint8  // one entry per simulated Pool.Get
-	SwitchTrace                          []uint64 // task<<32|site for every context switch (capped)
-	LogTruncated                         bool
-	Overflow                             bool // a simulator table overflowed: discard the run
-	PoolFresh, PoolSame, PoolCross       int
-	Tasks                                int
+	Yields, Decisions, Switches    uint64
+	BlockedOnLock, BlockedOnOnce   uint64
+	TraceHash, SwitchHash          uint64
+	Deadlock                       string
+	Log                            []uint8  // one entry per decision: index into the enabled list (current task first, then by id)
+	PoolLog                        []uint8  // one entry per simulated Pool.Get
+	SwitchTrace                    []uint64 // task<<32|site for every context switch (capped)
+	LogTruncated                   bool
+	Overflow                       bool // a simulator table overflowed: discard the run
+	PoolFresh, PoolSame, PoolCross int
+	Tasks                          int
 }
 
 var replayBuf []uint8 // read-only during a run
@@ -177,7 +178,37 @@ func grant(t int32) {
 		l.nread++
 	}
 	w.traceHash = (w.traceHash ^ uint64(t+1) ^ uint64(ts.site)<<8 ^ uint64(ts.kind)<<40) * 1099511628211
+	if traceDump != nil {
+		traceDump = append(traceDump, traceEvent{t, ts.site, ts.kind})
+	}
 	atomic.StoreUint32(&ts.state, stRunning)
+}
+
+// traceDump: development aid (SIMRT_TRACE=1): every granted request of the last run, for
+// comparing two executions that should have been identical.
+type traceEvent struct {
+	task       int32
+	site, kind uint32
+}
+
+var traceDump []traceEvent
+
+func init() {
+	if os.Getenv("SIMRT_TRACE") != "" {
+		traceDump = make([]traceEvent, 0, 1<<16)
+	}
+}
+
+// TraceDump returns the granted requests since the last call, as "task site kind" lines.
+func TraceDump() []string {
+	var out []string
+	for _, e := range traceDump {
+		out = append(out, fmt.Sprintf("%d %s %d", e.task, SiteName(e.site), e.kind))
+	}
+	if traceDump != nil {
+		traceDump = traceDump[:0]
+	}
+	return out
 }
 
 func rnd(n int) int { return int(splitmix(&w.rng) % uint64(n)) }
